@@ -32,8 +32,10 @@ def save(_obj: object, filename: str, filetype: str, **kwargs):
 
     elif filetype == "yaml":
 
-        from pyrates.frontend.fileio import yaml
-        yaml.dump_to_yaml(_obj, filename, **kwargs)
+        # (through the template-level function: it also drops templates that were loaded from this file earlier from the
+        # template cache, so that the next `from_yaml` reads what has just been written)
+        from pyrates.frontend.template import to_yaml
+        to_yaml(_obj, filename, **kwargs)
         print(f"{_obj} successfully dumped to {filename} in YAML format.")
 
     else:
